@@ -2019,7 +2019,11 @@ impl Checker
         }
         if snap.storages_without_callback != 0 { self.viol("C11", format!("{} system commands are missing their system between trees", snap.storages_without_callback)); }
         // C05: no bookkeeping entity outlives the tree
-        if snap.data_entities != 0 { self.viol("C05", format!("{} event data entities outlive their tree", snap.data_entities)); }
+        if snap.data_entities != 0
+        {
+            self.viol("C05", format!("{} event data entities outlive their tree", snap.data_entities));
+            self.viol("C11", format!("{} event data entities (payload + reader bookkeeping) are left between trees", snap.data_entities));
+        }
         if let Some(x) = self.extras
         {
             if count != x
